@@ -6,10 +6,14 @@
    Tied to the engines on every run: the checker is run on control graphs dumped from the real lowerings, and the
    placement predicted by `place` is compared with them. Promptness itself (goroutine scheduling, the watcher
    goroutine, that the backend keeps the check calls) is measured on both engines, not proved.
+   HOST NODES (coq/Engine/TermHost.v): the graphs above treat re-entry of the guest from a host function as an always
+   checked boundary. The C07_host_* theorems below make the host a node kind and the call entry (api.Function.Call from a
+   host function) an edge that carries its own checks, say which cause each check observes, and show that the entry
+   check is the only check point on a recursion guest -> host -> guest.
    HONEST BOUND: the bound on check-free executions is exponential in the stack ceiling, and it is tight
    (C07_tree_recursion_unbounded_witness): a guest doing bounded-depth tree recursion never polls the closed word. *)
 From Coq Require Import List Arith ZArith.
-From Verif Require Import Lib.GoInt Gen.GenC07Sys Engine.TermCheck Proofs.TermCheckP.
+From Verif Require Import Lib.GoInt Gen.GenC07Sys Engine.TermCheck Proofs.TermCheckP Engine.TermHost Proofs.TermHostP.
 Import ListNotations.
 Close Scope Z_scope.
 Open Scope nat_scope.
@@ -95,3 +99,105 @@ Theorem C07_cause_code :
   fail_if_closed 0%Z = None /\ is_closed 0%Z = false.
 Proof. exact cause_code_all. Qed.
 Print Assumptions C07_cause_code.
+
+(* ------------------------------------------------------------------ host nodes, call entry as a check point *)
+
+(* For ALL graphs with host nodes and entry edges, and every situation (view) v: if hcheck accepts - the cycle checker
+   accepts the graph without its entry edges AND every entry edge carries a check that observes v - then a path in which
+   no single call engine holds more than `ceiling` frames, whatever the number of nested call engines (nothing bounds
+   that: each api.Function.Call from a host function gets a fresh stack), passes a check point observing v (a check
+   node or a checked call entry) within hbound = (|H|+2)^(ceiling+1) * (nesting at the start of the path) steps. *)
+Theorem C07_host_checker_sound :
+  forall (v : view) (H : hgraph) (ceiling : nat) (c0 : hcfg) (l : hpath),
+  hcheck v H = true ->
+  is_hpath H c0 l ->
+  (forall c, In c (cfgs c0 l) -> segs_le ceiling (snd c)) ->
+  hbound (length H) ceiling (nest (snd c0)) <= length l ->
+  checkpoint v H c0 l.
+Proof. exact host_checker_sound. Qed.
+Print Assumptions C07_host_checker_sound.
+
+(* For ALL graphs in which every host -> guest edge is a call entry whose checks observe the situation: every path along
+   which the host <-> guest nesting grows - every trip round a cycle guest -> host -> guest - passes such an entry check
+   (no ceiling, any length); and in a well-formed graph call entries leave host nodes only. *)
+Theorem C07_host_cycles_checked :
+  (forall (v : view) (H : hgraph), entries_checked v H = true ->
+     forall (l : hpath) (c0 : hcfg), is_hpath H c0 l -> nest (snd c0) < nest (snd (hlast c0 l)) ->
+     exists ks c, In (Some ks, c) l /\ v_entry v ks = true) /\
+  (forall (H : hgraph) n st ks c', wf_host H = true -> hstep H (n, st) (Some ks) c' -> is_host H n = true).
+Proof. exact host_cycles_checked_full. Qed.
+Print Assumptions C07_host_cycles_checked.
+
+(* The seeded defect's shape: one guest function that calls an imported Go function which calls it back. Neither
+   lowering places a check in it. If the call entry does not observe the situation, hcheck rejects the graph, rightly:
+   it has check-free paths of every length on which every call engine holds a single frame and the nesting grows by
+   one per round trip. If the entry observes the situation the graph is accepted. Instances: no situation is observed
+   after the seeded change (entry_seeded); with the entry as it is now (entry_now = the ctx.Done pre-check) a close
+   from another goroutine and an outer call's cancellation are not observed, the call's own context is. *)
+Theorem C07_host_cycle_unchecked_refuted :
+  place interp_now hostrec_prog = hostrec_prog /\ place comp_now hostrec_prog = hostrec_prog /\
+  (forall v ks, v_entry v ks = false ->
+     hcheck v (hostrec_graph ks) = false /\
+     forall n, let l := hostrec_path ks n [] in
+       is_hpath (hostrec_graph ks) (2, []) l /\ ~ checkpoint v (hostrec_graph ks) (2, []) l /\
+       (forall c, In c (cfgs (2, []) l) -> segs_le 1 (snd c)) /\ length l = 3 * n /\
+       nest (snd (hlast (2, []) l)) = n + 1) /\
+  (forall v ks, v_entry v ks = true -> hcheck v (hostrec_graph ks) = true) /\
+  (forall w, v_entry (view_of w) entry_seeded = false) /\
+  (forall code, v_entry (view_of (sit_close code)) entry_now = false) /\
+  v_entry (view_of sit_outer_cancel) entry_now = false /\
+  (forall b, v_entry (view_of (sit_cancel b)) entry_now = true) /\
+  (forall b, v_entry (view_of (sit_deadline b)) entry_now = true).
+Proof. exact host_cycle_unchecked_refuted. Qed.
+Print Assumptions C07_host_cycle_unchecked_refuted.
+
+(* Which cause is observed where (run_chk / run_entry model the two kinds of check on ctx.Err() and the closed word):
+   the entry pre-check observes cancellation and deadline of the context handed to the call, at once and with the right
+   code; it does not observe a module closed from another goroutine nor the word written by an outer call's watcher;
+   after the seeded change the entry observes nothing; with FailIfClosed added at entry it observes every cause; the
+   checks inside the guest read the word only (close: at once; cancellation / deadline: once a watcher has run). *)
+Theorem C07_entry_observes_cause :
+  (forall b, fst (run_entry entry_now (sit_cancel b)) = Some ExitCodeContextCanceled) /\
+  (forall b, fst (run_entry entry_now (sit_deadline b)) = Some ExitCodeDeadlineExceeded) /\
+  (forall code, observes entry_now (sit_close code) = false) /\
+  observes entry_now sit_outer_cancel = false /\ observes entry_now sit_outer_deadline = false /\
+  (forall w, observes entry_seeded w = false) /\
+  (forall b, observes entry_repaired (sit_cancel b) = true) /\ (forall b, observes entry_repaired (sit_deadline b) = true) /\
+  (forall code, observes entry_repaired (sit_close code) = true) /\
+  observes entry_repaired sit_outer_cancel = true /\ observes entry_repaired sit_outer_deadline = true /\
+  (forall code, observes [KWord] (sit_close code) = true) /\
+  observes [KWord] (sit_cancel true) = true /\ observes [KWord] (sit_cancel false) = false /\
+  observes [KWord] (sit_deadline true) = true /\ observes [KWord] (sit_deadline false) = false /\
+  observes entry_now sit_quiet = false /\ observes entry_repaired sit_quiet = false /\ observes [KWord] sit_quiet = false.
+Proof. exact entry_observes_cause. Qed.
+Print Assumptions C07_entry_observes_cause.
+
+(* The entry pre-check in full: whenever the context handed to a call is done, the call returns at entry with an exit
+   code - the context's code if the module was still open (and the module is closed by it), the earlier cause's code
+   otherwise; with a live context the call always proceeds into the guest, whatever the closed word says. *)
+Theorem C07_entry_precheck :
+  (forall w, w_ctx w <> CtxLive ->
+     exists code, fst (run_entry entry_now w) = Some code /\
+       (w_word w = 0%Z -> code = ctx_code (w_ctx w) /\ is_closed (w_word (snd (run_entry entry_now w))) = true) /\
+       (w_word w <> 0%Z -> fail_if_closed (w_word w) = Some code)) /\
+  (forall w, w_ctx w = CtxLive -> run_entry entry_now w = (None, w)).
+Proof. exact (conj entry_now_observes_ctx entry_now_blind). Qed.
+Print Assumptions C07_entry_precheck.
+
+(* For EVERY program and each engine's placement: the graph WITH host nodes and entry edges passes hcheck in every
+   situation that both the in-guest checks and the entry checks observe - with the code as it is now: the call's own
+   context cancelled / past its deadline (watcher has run); with FailIfClosed at entry also a close from another
+   goroutine and an outer call's cancellation. *)
+Theorem C07_host_insertion_complete :
+  (forall pl p ks v, pl_loop pl = true -> pl_tail pl = true -> v_node v = true -> v_entry v ks = true ->
+     hcheck v (hgraph_of ks (place pl p)) = true) /\
+  (forall p, hcheck (view_of (sit_cancel true)) (hgraph_of entry_now (place interp_now p)) = true /\
+             hcheck (view_of (sit_cancel true)) (hgraph_of entry_now (place comp_now p)) = true /\
+             hcheck (view_of (sit_deadline true)) (hgraph_of entry_now (place interp_now p)) = true /\
+             hcheck (view_of (sit_deadline true)) (hgraph_of entry_now (place comp_now p)) = true) /\
+  (forall p code, hcheck (view_of (sit_close code)) (hgraph_of entry_repaired (place interp_now p)) = true /\
+                  hcheck (view_of (sit_close code)) (hgraph_of entry_repaired (place comp_now p)) = true /\
+                  hcheck (view_of sit_outer_cancel) (hgraph_of entry_repaired (place interp_now p)) = true /\
+                  hcheck (view_of sit_outer_cancel) (hgraph_of entry_repaired (place comp_now p)) = true).
+Proof. exact host_insertion_complete_all. Qed.
+Print Assumptions C07_host_insertion_complete.
